@@ -272,7 +272,7 @@ pub fn run(g: &mut Global) {
     );
     let bc = boundary_cfgs();
     g.exhaustive("boundary", bc.len() as u64, &move |i| Case { cfg: bc[i as usize].clone(), later: vec![letter(1.0), letter(3.0), letter(2.0)], reset_at: Some(2) }, &check);
-    g.random("later_history", g.tier.pick(60000, 600000), &later_strategy, &check);
+    g.random("later_history", g.tier.pick(200000, 600000), &later_strategy, &check);
     // lives of 1 500 inputs under structured data (strictly rising / falling, geometric growth and decline, constant,
     // two alternating values, saw-tooth), accessors and Display examined after every 50th input and at the end: a
     // repair path that rebuilds a component from the wrong template changes what the instance reports about itself
@@ -353,5 +353,5 @@ pub fn run(g: &mut Global) {
         },
         &check,
     );
-    g.random("defaults", g.tier.pick(60000, 600000), &default_strategy, &check_default);
+    g.random("defaults", g.tier.pick(200000, 600000), &default_strategy, &check_default);
 }
